@@ -138,6 +138,57 @@ fn main() {
         }
     }
       }
+    // realistic dense patterns: every window of 48 consecutive objects of the osu! fixture (step 8) and the whole map,
+    // under no key mod and 1K-10K
+    {
+        let path = "/repo/resources/2785319.osu";
+        let n_obj = Beatmap::from_path(path).map(|m| m.hit_objects.len()).unwrap_or(0);
+        let starts: Vec<usize> = (0..n_obj).step_by(8).collect();
+        let kms = key_mods(true);
+        ctx.universe("fixture-windows/2785319.osu/48-objects-step-8", starts.len() as u64 + 1, |idx, l| {
+            let map = if idx as usize == starts.len() { Beatmap::from_path(path).ok() } else { gen::fixture_window(path, starts[idx as usize], 48) };
+            let Some(map) = map else {
+                l.ctx.machinery_error("fixture unreadable".into());
+                return;
+            };
+            l.nontrivial();
+            let ctxs = |extra: String| format!("{extra}\nfixture {path}, window index {idx}");
+            for target in [GameMode::Taiko, GameMode::Catch] {
+                let c = map.clone().convert(target, &ModSpec::Bits(0).build(target)).expect("convertible");
+                l.states(1);
+                l.checked(1);
+                if let Some(msg) = well_formed(&c) {
+                    l.violation("fixture_form", || ctxs(format!("{target:?} convert: {msg}")));
+                    return;
+                }
+                if target == GameMode::Taiko && c.hit_sounds.len() != c.hit_objects.len() {
+                    l.violation("taiko_sounds", || ctxs("taiko convert: sounds and objects differ in number".into()));
+                    return;
+                }
+            }
+            for (keys, m) in &kms {
+                let mn = map.clone().convert(GameMode::Mania, &m.build(GameMode::Mania)).expect("convertible");
+                l.states(1);
+                l.checked(1);
+                if let Some(msg) = well_formed(&mn) {
+                    l.violation("mania_form", || ctxs(format!("mania convert ({m:?}): {msg}")));
+                    return;
+                }
+                let cs = mn.cs;
+                if keys.is_some_and(|k| cs != k as f32) || (keys.is_none() && !((4.0..=7.0).contains(&cs))) {
+                    l.violation("mania_keys", || ctxs(format!("mania convert ({m:?}): key count (cs) = {cs}")));
+                    return;
+                }
+                for h in &mn.hit_objects {
+                    let col = (f64::from(h.pos.x) * f64::from(cs) / 512.0).floor();
+                    if !h.pos.x.is_finite() || h.pos.x < 0.0 || col >= f64::from(cs) {
+                        l.violation("mania_column", || ctxs(format!("mania convert ({m:?}): object at t={} has x={} i.e. column {col} which is not below {cs}", h.start_time, h.pos.x)));
+                        return;
+                    }
+                }
+            }
+        });
+    }
     let _ = gen::game_mode(0);
     ctx.finish();
 }
